@@ -5,6 +5,7 @@
 package keepclient
 
 import (
+	"fmt"
 	"io"
 	"sort"
 	"strconv"
@@ -89,7 +90,14 @@ func (c *BlockCache) Get(kc *KeepClient, locator string) ([]byte, error) {
 		go func() {
 			rdr, size, _, err := kc.Get(locator)
 			var data []byte
-			if err == nil {
+			if err == nil && (size < 0 || size > int64(bufsize)) {
+				// Size hint beyond 32 bits, or (without a
+				// hint) a Content-Length larger than a Keep
+				// block: fail the read instead of crashing
+				// in make().
+				rdr.Close()
+				err = fmt.Errorf("error reading %q: size %d exceeds buffer size %d", locator, size, bufsize)
+			} else if err == nil {
 				data = make([]byte, size, bufsize)
 				_, err = io.ReadFull(rdr, data)
 				err2 := rdr.Close()
